@@ -31,6 +31,8 @@ def build(scn):
     if scn.get('conf2', 'absent') != 'absent':
         second = dict(a['conf'][0], recipient=u['url'] if scn['conf2'] == 'own' else u['foreign'])
         a['conf'] = [second, a['conf'][0]] if scn['conf2first'] else [a['conf'][0], second]
+    if scn.get('mtype') == 'attribute':
+        a['authn'] = None
     a_xml = sb.assertion(a)
     body = '<saml:EncryptedAssertion>%s</saml:EncryptedAssertion>' % a_xml if scn['enc'] else a_xml
     r = spc.default_response(irt=None if scn['irt'] == 'none' else scn['irt'], destination=u[scn['dest']])
@@ -38,6 +40,22 @@ def build(scn):
     if scn['enc']:
         doc = sb.encrypt_element(doc, sb.xp('Response', 'EncryptedAssertion', 'Assertion'), 'kSpEnc1')
     return doc
+
+
+def observe_attribute(sp, doc):
+    """the answer to an attribute query, delivered in a SOAP envelope"""
+    envl = ('<soapenv:Envelope xmlns:soapenv="http://schemas.xmlsoap.org/soap/envelope/"><soapenv:Body>%s</soapenv:Body>'
+            '</soapenv:Envelope>' % doc)
+    obs = {'verdict': 'reject', 'exc': None, 'calls': []}
+    try:
+        r = sp.parse_attribute_query_response(envl, env.BINDING_SOAP)
+        if r is not None and getattr(r, 'ava', None):
+            obs['verdict'] = 'accept'
+            obs['ava'] = dict((k, list(v)) for k, v in r.ava.items())
+    except Exception as exc:
+        obs['exc'] = type(exc).__name__
+        obs['msg'] = str(exc)[:200]
+    return obs
 
 
 def replay(case):
@@ -54,7 +72,10 @@ def replay(case):
     conv = {'entity_id': env.SP, 'remote_addr': '0.0.0.0', 'request_uri': '/acs'} if scn['conv'] else None
     binding = env.BINDING_POST if scn['binding'] == 'post' else env.BINDING_REDIRECT
     outstanding = dict((k, '/came/from/same') for k in OUTSTANDING) if scn.get('sameFrom') else dict(OUTSTANDING)
-    obs = spc.observe(sp, doc, binding, outstanding, conv_info=conv)
+    if scn.get('mtype') == 'attribute':
+        obs = observe_attribute(sp, doc)
+    else:
+        obs = spc.observe(sp, doc, binding, outstanding, conv_info=conv)
     obs['doc'] = doc
     return obs
 
@@ -76,7 +97,7 @@ def main():
         keep = []
         for c in cases:
             s = c['scn']
-            core = (not s['enc'] and s['binding'] == 'post') or s['endpoint'] == 'otherBindingOnly' or s['conf2'] != 'absent' or s['sameFrom']
+            core = (not s['enc'] and s['binding'] == 'post') or s['endpoint'] == 'otherBindingOnly' or s['conf2'] != 'absent' or s['sameFrom'] or s['mtype'] == 'attribute'
             decided = c['mustAccept'] or c['mustReject']
             if (core and decided and chk.rng.random() < 0.5) or chk.rng.random() < 0.06:
                 keep.append(c)
